@@ -32,6 +32,11 @@ def D(*entries, cap=""):
 
 LT2 = D(("length", "m", 2), ("time", "s", -1))
 MIX = D(("length", "m", 1), ("depth", "cm", 1))
+SHARED = {"map": None}  # the caller-owned map of the current history (rebuilt by make())
+
+
+def _shared_key():
+    return D(*[(c, ue[0], ue[1]) for c, ue in SHARED["map"].items()])
 
 
 def _mix():
@@ -110,6 +115,15 @@ def _ops():
     q("Array(MIX)-Array(m*m) ndarray", lambda db: (Array(_mix(), np.array([1.0, 2.0])) - Array(np.array([1.0, 2.0]), "m") * Array(np.array([1.0, 2.0]), "m")).GetQuantity(), None)
     q("q(MIX)+q(m2)", lambda db: _mix() + ObtainQuantity("m", "length") * ObtainQuantity("m", "length"), None)
     q("Scalar(MIX)*Scalar(km)", lambda db: (Scalar(_mix(), 2.0) * _scal(3.0, "km")).GetQuantity(), None)
+    # ONE map object owned by the caller, reused for several requests and edited in between (a loop that
+    # builds m2/s, m3/s, m3/min from one dict): quantities obtained earlier must not follow the edits
+    q("ObtainQuantity(<shared map>)", lambda db: ObtainQuantity(SHARED["map"]), "SHARED")
+    q("Quantity.CreateDerived(<shared map>)", lambda db: Quantity.CreateDerived(SHARED["map"]), "SHARED")
+    q("LT2.MakeCopy(<shared map>)", lambda db: ObtainQuantity([("m", 2), ("s", -1)], ("length", "time")).MakeCopy(SHARED["map"]), "SHARED")
+    q("LT2.CreateCopyInstance(<shared map>)", lambda db: ObtainQuantity([("m", 2), ("s", -1)], ("length", "time")).CreateCopyInstance(SHARED["map"]), "SHARED")
+    q("<caller edits its map: length exponent + 1>", lambda db: SHARED["map"]["length"].__setitem__(1, SHARED["map"]["length"][1] + 1), None)
+    q("<caller edits its map: time unit s -> min>", lambda db: SHARED["map"]["time"].__setitem__(0, "min"), None)
+    q("<caller edits the map a getter returned: GetCategoryToUnitAndExpsCopy()>", lambda db: ObtainQuantity([("m", 2), ("s", -1)], ("length", "time")).GetCategoryToUnitAndExpsCopy()["length"].__setitem__(1, 7), None)
     # conversions / validation / failing operations (no quantity result)
     q("Scalar(1,'km').GetValue('m')", lambda db: _scal(1.0, "km").GetValue("m"), None)
     q("ObtainQuantity('m').CheckValue(5)", lambda db: ObtainQuantity("m").CheckValue(5.0), None)
@@ -187,6 +201,7 @@ class Sys:
 def make():
     db = worlds.get("posc")  # caches cleared
     worlds.reset_globals()
+    SHARED["map"] = OrderedDict([("length", ["m", 2]), ("time", ["s", -1])])
     return Sys(db)
 
 
@@ -200,7 +215,12 @@ def canon(s):
     # quantities that are alive but not interned (direct constructor) cannot be reached by the
     # implementation again; they are judged at the step that creates them and on every later step
     # of the same history, but they do not distinguish states.
-    return (cache, getattr(Quantity, "_EMPTY_QUANTITY", None) is not None)
+    # the caller-owned map: its content, and whether any live quantity shares its lists (aliasing is part of
+    # the state: two histories with equal caches but different aliasing have different futures)
+    shared = SHARED["map"]
+    lists = list(shared.values())
+    aliased = tuple(sorted(t[1][2] for t in s.tracked.values() if any(ue is l for ue in t[0].GetCategoryToUnitAndExps().values() for l in lists) or t[0].GetCategoryToUnitAndExps() is shared))
+    return (cache, getattr(Quantity, "_EMPTY_QUANTITY", None) is not None, tuple((c, tuple(ue)) for c, ue in shared.items()), aliased)
 
 
 def apply(s, op, part, hist):
@@ -211,6 +231,9 @@ def apply(s, op, part, hist):
     failure = None
     if op in OPS_TABLE:
         f, key, interned = OPS_TABLE[op]
+        if key == "SHARED":
+            key = _shared_key()  # what the request denotes NOW
+            interned = False  # the same op name denotes different requests as the map is edited
         try:
             r = f(s.db)
             if isinstance(r, Quantity):
